@@ -227,7 +227,7 @@ PROPS = {
         design_ref="DESIGN.md section 4, C19",
     ),
     "C20": S(
-        fmt.C20 + [o.exi1_producers, version.ver1_opcodes],
+        fmt.C20 + [o.exi1_producers, version.ver1_opcodes, version.ver4_stdlib_api],
         explanation="The trickery call is inside a try whose Exception handler warns with InspectionWarning and assigns the referents result (never re-raises), and referents is used when trickery is unavailable; the mode switch is a plain module-level global (not thread-local), "
                     "written only in set_trickery_enabled and _check_trickery_available and always under _trickery_lock; set_trickery_enabled stores its argument unchanged; _check_trickery_available returns the stored value whenever it is not None and re-tests after taking the lock; "
                     "a failing self-test warns and stores False; the referents producer filters bound __exit__/__aexit__ methods, derives is_async from the name, takes obj from __self__, appends the exiting entry last, and roots the scan at the owning generator exactly on 3.11/3.12.",
@@ -240,7 +240,7 @@ PROPS = {
         design_ref="DESIGN.md section 4, C20",
     ),
     "C17": S(
-        glue.C17 + [e.def1],
+        glue.C17 + [e.def1, version.ver4_stdlib_api],
         explanation="Protocol of the glue installer: there is one installer function and every call of a glue function goes through it (who-may-call); both references are removed from their registries (pop) before either is called; "
                     "the two calls are the exclusive arms of one if/elif with the module-provided one first; registry accesses, the scan loop and the calls are covered by glue_lock at every call site; "
                     "failures only warn and the scan loop cannot be left early; the length cache is written after the scan, inside the lock, from the snapshot taken before it; at decoration time glue runs only under a condition implying the module is imported and is otherwise pending; "
